@@ -97,6 +97,16 @@ func genMatchCases(r *Rng, n int) {
 		g := &CondGen{r: cr, item: item, o: o, Exotic: cr.Chance(10)}
 		tree := g.Gen(cr.Intn(4))
 		ctx := NewExprCtx(cr)
+		if cr.Chance(4) {
+			// expression attribute names whose values are placeholders again, in a cycle, or a dotted value that
+			// contains its own placeholder: each names an attribute the item does not have
+			root := seedCyclicNames(cr, ctx)
+			extra := &Cond{K: "fn", Fn: pick(cr, []string{"attribute_exists", "attribute_not_exists"}), Args: []Operand{{Kind: "path", Root: []byte(root)}}}
+			if cr.Bool() {
+				extra = &Cond{K: "cmp", Op: pick(cr, []string{"=", "<>"}), L: &Operand{Kind: "path", Root: []byte(root)}, R: &Operand{Kind: "val", Val: S("red")}}
+			}
+			tree = &Cond{K: pick(cr, []string{"and", "or"}), A: extra, B: tree}
+		}
 		expr := ctx.Print(tree, 0)
 		impl := runMatch(expr, item, ctx.Names, ctx.Values)
 		emit(Case{"kind": "match", "expr": hx([]byte(expr)), "text": expr, "item": canonKeysOnly(item), "names": namesList(ctx.Names),
@@ -112,11 +122,37 @@ func genUpdateCases(r *Rng, n int) {
 		g := &UpdGen{r: cr, item: item, o: o}
 		acts := g.Gen()
 		ctx := NewExprCtx(cr)
+		if cr.Chance(4) {
+			root := seedCyclicNames(cr, ctx)
+			acts = append(acts, UAction{K: "remove", Target: Operand{Kind: "path", Root: []byte(root)}})
+		}
 		expr := ctx.PrintUpdate(acts)
 		impl := runUpdate(expr, item, ctx.Names, ctx.Values)
 		emit(Case{"kind": "update", "expr": hx([]byte(expr)), "text": expr, "item": canonKeysOnly(item), "names": namesList(ctx.Names),
 			"values": valuesItem(ctx.Values), "tree": acts, "bareReserved": ctx.BareReserv, "impl": impl})
 	}
+}
+
+// seedCyclicNames puts a cycle of placeholders (length 2 or 3) or a dotted self-reference into the
+// expression attribute names and returns the attribute name whose placeholder enters it
+func seedCyclicNames(r *Rng, ctx *ExprCtx) string {
+	set := func(alias, target string) {
+		ctx.Names[alias] = target
+		ctx.nameOf[target] = alias
+	}
+	switch r.Intn(3) {
+	case 0:
+		set("#c0", "#c1")
+		set("#c1", "#c0")
+		return "#c1"
+	case 1:
+		set("#c0", "#c1")
+		set("#c1", "#c2")
+		set("#c2", "#c0")
+		return "#c1"
+	}
+	set("#p", "nometa.#p")
+	return "nometa.#p"
 }
 
 func genNumCases(r *Rng, n int) {
